@@ -909,3 +909,28 @@ Proof.
   exact (conj Salsa.CFetchD.ExamplesLevels.static_levelsv (conj Salsa.CFetchD.ExamplesLevels.sv_reachable
         (conj Salsa.CFetchD.ExamplesLevels.sv_values_from_theorem (conj D1 (conj D2 C))))).
 Qed.
+
+(* ------------------------------------------------------------------------------------------
+   Stage 15: the model-level theorem for path/revision-dependent semantic levels (the observer
+   clause proper) is NOT proved.  Closed groundwork, specification side only
+   (CFetchD/ProofsObserver.v): [first_changed_is_read_again] of Core/SpecProofs.v over the
+   resumable bodies of CFetchD — the lemma behind [frame_changed_lb] / [frame_dur_lb]. *)
+From Salsa.CFetchD Require ProofsObserver.
+
+Theorem C16_first_changed_is_read_again_dyn :
+  forall (rec : key -> val) (inp : ikey -> val) (rec' : key -> val) (inp' : ikey -> val) (b : body),
+  (forall e, In e (Salsa.CFetchD.ProofsRel.readsb rec inp b) -> Salsa.CFetchD.ProofsRel.esame rec rec' inp inp' e) \/
+  (exists pre e post, Salsa.CFetchD.ProofsRel.readsb rec inp b = pre ++ e :: post /\
+     (forall x, In x pre -> Salsa.CFetchD.ProofsRel.esame rec rec' inp inp' x) /\
+     ~ Salsa.CFetchD.ProofsRel.esame rec rec' inp inp' e /\
+     exists post', Salsa.CFetchD.ProofsRel.readsb rec' inp' b = pre ++ e :: post').
+Proof. exact Salsa.CFetchD.ProofsObserver.first_changed_is_read_againD. Qed.
+
+Check C16_first_changed_is_read_again_dyn :
+  forall (rec : key -> val) (inp : ikey -> val) (rec' : key -> val) (inp' : ikey -> val) (b : body),
+  (forall e, In e (Salsa.CFetchD.ProofsRel.readsb rec inp b) -> Salsa.CFetchD.ProofsRel.esame rec rec' inp inp' e) \/
+  (exists pre e post, Salsa.CFetchD.ProofsRel.readsb rec inp b = pre ++ e :: post /\
+     (forall x, In x pre -> Salsa.CFetchD.ProofsRel.esame rec rec' inp inp' x) /\
+     ~ Salsa.CFetchD.ProofsRel.esame rec rec' inp inp' e /\
+     exists post', Salsa.CFetchD.ProofsRel.readsb rec' inp' b = pre ++ e :: post').
+Print Assumptions C16_first_changed_is_read_again_dyn.
